@@ -21,6 +21,7 @@ type GenOpts struct {
 	EndDeactivate  int  // percent chance to finish with a valid deactivate
 	TimeDelta      int64
 	SharedTime     bool // several operations may share a transaction time (distinct numbers)
+	RecoverOldUpd  bool // a recover may re-commit to an update key that an earlier update already revealed
 }
 
 // Event is one generated operation with a label and whether it is legitimate.
@@ -110,6 +111,13 @@ func (d *DID) GenEvents(o GenOpts) []Event {
 			s = d.ValidUpdate(d.fresh(), "U")
 		case lroll < 92 || d.CurUpd == nil:
 			s = d.ValidRecover(d.fresh(), d.fresh(), "R")
+			if o.RecoverOldUpd && len(d.PastUpd) > 0 && r.Intn(2) == 0 {
+				old := d.PastUpd[r.Intn(len(d.PastUpd))]
+				if old.Commitment(d.Code) != s.NextRec && old != d.CurRec {
+					s.NextUpd = old.Commitment(d.Code)
+					s.Label = "R.oldupd"
+				}
+			}
 		default:
 			s = d.ValidDeactivate("D")
 		}
